@@ -32,6 +32,21 @@ class HAProxyProtocolWrapper(policies.ProtocolWrapper):
         super().__init__(factory, wrappedProtocol)
         self._proxyInfo: Optional[_info.ProxyInfo] = None
         self._parser: Union[V2Parser, V1Parser, None] = None
+        self._buffer = b""
+
+    @staticmethod
+    def _mayBecomeHeader(data: bytes) -> bool:
+        """
+        Is C{data} too short to tell the header version, but still the
+        beginning of something that may turn out to be a v1 or v2 header?
+        """
+        if (
+            len(data) < 16
+            and data[:12] == V2Parser.PREFIX[: len(data)]
+            and (len(data) < 13 or ord(data[12:13]) & 0b11110000 == 0x20)
+        ):
+            return True
+        return len(data) < 8 and data[:5] == V1Parser.PROXYSTR[: len(data)]
 
     def dataReceived(self, data: bytes) -> None:
         if self._proxyInfo is not None:
@@ -39,6 +54,10 @@ class HAProxyProtocolWrapper(policies.ProtocolWrapper):
 
         parser = self._parser
         if parser is None:
+            # The version can only be told once enough of the header has
+            # arrived; a header may be split across deliveries at any point.
+            data = self._buffer + data
+            self._buffer = b""
             if (
                 len(data) >= 16
                 and data[:12] == V2Parser.PREFIX
@@ -47,6 +66,9 @@ class HAProxyProtocolWrapper(policies.ProtocolWrapper):
                 self._parser = parser = V2Parser()
             elif len(data) >= 8 and data[:5] == V1Parser.PROXYSTR:
                 self._parser = parser = V1Parser()
+            elif self._mayBecomeHeader(data):
+                self._buffer = data
+                return None
             else:
                 self.loseConnection()
                 return None
